@@ -483,6 +483,14 @@ def make_openvpn_fixed(rng):
     return bytes(packet.compose())
 
 
+def make_openvpn_fixed_key_id(rng):
+    """The same packets with a non-zero key id (the low three bits of the first octet; the state after a key
+    renegotiation), which the library never composes: set here as the protocol description says."""
+    packet = bytearray(make_openvpn_fixed(rng))
+    packet[0] = (packet[0] & 0xf8) | rng.randrange(1, 8)
+    return bytes(packet)
+
+
 def make_ldap_request(rng):  # pylint: disable=unused-argument
     from cryptoparser.tls.ldap import LDAPExtendedRequestStartTLS
     return bytes(LDAPExtendedRequestStartTLS().compose())
@@ -604,6 +612,8 @@ CHANNELS = [
     Channel('tpkt', P_ + 'tls.rdp.TPKT', 'tpkt', make_tpkt),
     Channel('openvpn_tcp', P_ + 'tls.openvpn.OpenVpnPacketWrapperTcp', 'openvpn_tcp', make_openvpn_tcp),
     Channel('openvpn_packet', P_ + 'tls.openvpn.OpenVpnPacketVariant', None, make_openvpn_fixed, single_unit=True),
+    Channel('openvpn_packet_key_id', P_ + 'tls.openvpn.OpenVpnPacketVariant', None, make_openvpn_fixed_key_id,
+            single_unit=True, spec_sender=True),
     Channel('ldap_request', P_ + 'tls.ldap.LDAPExtendedRequestStartTLS', 'ldap', make_ldap_request),
     Channel('ldap_response', P_ + 'tls.ldap.LDAPExtendedResponseStartTLS', 'ldap', make_ldap_response),
     Channel('ldap_response_ber_long_lengths', P_ + 'tls.ldap.LDAPExtendedResponseStartTLS', 'ldap',
